@@ -9,6 +9,7 @@ signals (find_turns plateau semantics beyond its comparison structure).
 from __future__ import annotations
 
 import ast
+import re
 
 from ..astutil import (assigned_targets, call_name, calls_in, const_value, find_func, is_self_attr, names_in,
                        parse_expr, parse_stmt, replace_node, subst_names, clone, tuple_assign_pairs)
@@ -241,6 +242,15 @@ def run(ctx):
 NARROWING = ("fabsf", "float32", "np.float32", "np.single", "np.half", "np.float16", "roundf", "floorf", "ceilf", "lroundf")
 
 
+def narrow_declarations(k):
+    """C declarations of the kernel's locals in single (or half) precision: a value held in such a variable is rounded before
+    it is compared -> [(name, type)]"""
+    used = {n_.id for n_ in ast.walk(k.fi.node) if isinstance(n_, ast.Name)}
+    ctypes_ = getattr(k.fi.module, "ctypes", {}) or {}
+    return sorted((nm, ty) for nm, ty in ctypes_.items() if nm.split(".")[-1] in used and
+                  re.fullmatch(r"(np\.|cnp\.)?(float|float32(_t)?|npy_float32|half|float16(_t)?)", ty.strip()))
+
+
 def _r7_precision_and_state(ctx):
     """(a) The counting kernels compare ranges in the precision of the signal (double): a single-precision function or cast
     (fabsf, float32) in a kernel makes ranges that differ by less than ~6e-8 relative tie, which closes cycles the rule leaves
@@ -255,7 +265,14 @@ def _r7_precision_and_state(ctx):
                 bad.append(n)
             if isinstance(n, ast.Name) and n.id in ("float32",) and isinstance(n.ctx, ast.Load):
                 bad.append(n)
-        ct = {v for v in getattr(k.fi.module, "ctypes", {}).get(k.fi.name, {}).values()} if hasattr(k.fi.module, "ctypes") else set()
+        narrow_decl = narrow_declarations(k)
+        if narrow_decl and not bad:
+            nm, ty = narrow_decl[0]
+            ctx.violated(k.fi, k.fi.node, "%s: the local %s is declared `cdef %s` (single precision): a turning-point value is rounded to "
+                         "about 7 significant digits before the closing rule compares it, so whether a cycle closes depends on the "
+                         "absolute level of the signal, not only on its ranges" % (k.fi.name, nm.split(".")[-1], ty),
+                         text="narrow declaration %s" % nm.split(".")[-1])
+            continue
         if bad:
             st = bad[0]
             while not isinstance(st, ast.stmt):
